@@ -48,21 +48,22 @@ func (baseMon) After(td *TD, ev *ActEvent) *Viol  { return nil }
 func (baseMon) End(td *TD) *Viol                  { return nil }
 
 type handCfg struct {
-	name     string
-	tcfg     TableCfg
-	ids      []string
-	seatOf   []int
-	stacks   []int64
-	sitOut   bool // reserve "so" (never joined) on the first free seat
-	hands    int
-	line     Line
-	pol      HandPolicy
-	advance  int64                           // seconds the clock is advanced before each wager action (when no timer is due earlier)
-	atWager  func(td *TD, hand int, nth int) // called at each wager request before acting (nth = index within the hand)
-	between  func(td *TD, hand int)          // called when hand `hand` has been settled and the table is in standby
-	late     func(td *TD, hand int)          // called in standby once the next hand has been set up (open-game wait)
-	retry    func(td *TD, hand int)          // called once per hand number while tableGameOpen sleeps in its retry loop
-	maxSteps int
+	name        string
+	tcfg        TableCfg
+	ids         []string
+	seatOf      []int
+	stacks      []int64
+	sitOut      bool // reserve "so" (never joined) on the first free seat
+	sitOutFirst bool // reserve "so" before the others, so that it holds player-list index 0 (list index != hand index)
+	hands       int
+	line        Line
+	pol         HandPolicy
+	advance     int64                           // seconds the clock is advanced before each wager action (when no timer is due earlier)
+	atWager     func(td *TD, hand int, nth int) // called at each wager request before acting (nth = index within the hand)
+	between     func(td *TD, hand int)          // called when hand `hand` has been settled and the table is in standby
+	late        func(td *TD, hand int)          // called in standby once the next hand has been set up (open-game wait)
+	retry       func(td *TD, hand int)          // called once per hand number while tableGameOpen sleeps in its retry loop
+	maxSteps    int
 }
 
 type runner struct {
@@ -236,10 +237,25 @@ func runHandCfg(prefix []int, hc *handCfg, vcfg vrt.Config, mk func(td *TD) []Mo
 		if err != nil {
 			return "", "harness-create-table", err.Error()
 		}
+		reserveSO := func() {
+			used := map[int]bool{}
+			for _, s := range hc.seatOf {
+				used[s] = true
+			}
+			for s := hc.tcfg.Seats - 1; s >= 0; s-- {
+				if !used[s] {
+					td.reserve("so", s, 5)
+					break
+				}
+			}
+		}
+		if hc.sitOutFirst {
+			reserveSO()
+		}
 		if err := td.seatIn(hc.ids, hc.seatOf, hc.stacks); err != nil {
 			return "", "harness-seat", err.Error()
 		}
-		if hc.sitOut {
+		if hc.sitOut && !hc.sitOutFirst {
 			used := map[int]bool{}
 			for _, s := range hc.seatOf {
 				used[s] = true
